@@ -70,6 +70,10 @@ def generate(rng, tier, idx):
         sc['round2'] = None
     if rng.random() < 0.3:
         sc['orig_key'] = 'other'      # the tree was signed by somebody else's key; re-signing without a key id uses OUR default key
+    if sc['api'] == 'cli' and rng.random() < 0.5:
+        # a second tree on the same command line, before or after this one, signed or plain: each tree's top-level Manifest
+        # follows its OWN earlier state when neither --sign nor --no-sign is given
+        sc['other_tree'] = {'signed': rng.random() < 0.5, 'pos': rng.choice(['first', 'last'])}
     if rng.random() < 0.25:
         # one sub-Manifest carries a valid cleartext signature on disk (signed by hand, or once a top-level Manifest)
         sc['sub_signed'] = rng.randrange(100)
@@ -136,6 +140,7 @@ def run_world(sc, sign, keyid, fault, orig_signed):
             kid = 'verif other'
         elif keyid:
             kid = '0x' + GS.FPR[keyid]
+        other_text = None
         try:
             if sc.get('normalise_first'):
                 # an earlier, unsigned run has already brought every Manifest up to date with the same options: the run
@@ -166,7 +171,28 @@ def run_world(sc, sign, keyid, fault, orig_signed):
                         if sc.get('watermark') is not None:
                             argv += ['-c', str(sc['watermark'])]
                         argv.append(w.root)
+                        ot = sc.get('other_tree')
+                        if fault or keyid in ('unknown', 'expiring'):
+                            ot = None      # (signer faults and unusable keys are judged on the single-tree request)
+                        if ot:
+                            t0 = w.other_tree()
+                            if ot['signed']:
+                                with _o['open'](os.path.join(t0, 'Manifest'), 'r', encoding='utf8') as f:
+                                    pl_ = f.read()
+                                with _o['open'](os.path.join(t0, 'Manifest'), 'w', encoding='utf8') as f:
+                                    f.write(GS.clearsign(pl_, key='signer'))
+                            with _o['open'](os.path.join(t0, 'Manifest'), 'r', encoding='utf8') as f:
+                                other_before = f.read()
+                            argv = argv[:-1] + ([t0, w.root] if ot['pos'] == 'first' else [w.root, t0])
                         r = cli_as_call(run_cli(argv))
+                        if ot:
+                            try:
+                                with _o['open'](os.path.join(t0, 'Manifest'), 'r', encoding='utf8') as f:
+                                    other_text = f.read()
+                            except OSError:
+                                other_text = None
+                            if other_text == other_before:
+                                other_text = None      # not rewritten: whatever it carried stays
                     else:
                         def upd():
                             env = SystemGPGEnvironment()
@@ -212,6 +238,7 @@ def run_world(sc, sign, keyid, fault, orig_signed):
                             continue       # it arrived signed and this update did not write it
                         armor.append(rel_)
     seam.pre_signed_sub = pre_signed
+    seam.other_text = other_text
     return r, text, armor, wrote_top, seam
 
 
@@ -295,6 +322,20 @@ def execute(sc):
                 if signed_now or '-----BEGIN PGP' in text:
                     violations.append(viol('sign.signed-although-disabled', '%s: top-level Manifest carries a signature' % what, sig='signed'))
                 counters['plain_as_expected'] = 1
+    ot = sc.get('other_tree')
+    if ot and sc.get('api') == 'cli' and r[0] == 'ok' and not fault and getattr(seam, 'other_text', None) is not None and not violations:
+        counters['cli_two_trees.' + ('signed' if ot['signed'] else 'plain') + '-' + ot['pos']] = 1
+        want_other = sign if sign is not None else ot['signed']
+        has_ = seam.other_text.startswith('-----BEGIN PGP SIGNED MESSAGE-----')
+        if want_other and not has_ and (keyid in (None, 'signer', 'other', 'other-uid')):
+            violations.append(viol('sign.not-signed', '%s: the %s tree on the same command line (%s) was written without a signature' % (
+                what, 'signed' if ot['signed'] else 'plain', ot['pos']), sig='other-tree-plain'))
+        elif not want_other and '-----BEGIN PGP' in seam.other_text:
+            violations.append(viol('sign.signed-although-disabled', '%s: the plain tree on the same command line (%s) got a signature' % (what, ot['pos']), sig='other-tree-signed'))
+        elif want_other and has_:
+            clear_, good_ = GS.gpg_cleartext(seam.other_text, faketime=None)
+            if not good_:
+                violations.append(viol('sign.signature-does-not-verify', '%s: gpg rejects the top-level Manifest of the other tree on the command line' % what, sig='other-tree-gpg'))
     nontrivial = expect_sign or bool(fault)
     counters['opt.' + sc['opt']] = 1
     if sc.get('round2') and sc.get('api') != 'cli':
